@@ -236,7 +236,7 @@ ADDENDA = {
     "C11": "Also decides, by model extraction: (R11.7) show_error, has_file_level_ignore, _lines, is_enabled and get_unused_ignores are interpreted from their AST on every file of <= 3 lines from 11 line kinds x every sequence of <= 2 raw diagnostics x every set of enabled codes (~83,000 runs): reported = enabled and not suppressed by a documented ignore form; used / unused ignore comments are exactly those that did / did not suppress something; the used set does not depend on the enabled codes.",
     "C12": "Also decides: (R12.5) format()/payload operations on user objects run under an exception guard; (R12.6) payload comparisons go through safe_equals or an except clause.",
     "C13": "Also decides: (R13.3) coroutine wrapping of async functions is conditioned on async-ness only in both signature builders; (R13.4) the runtime route never reads typing's shared ForwardRef evaluation cache.",
-    "C14": "Also decides: hand-written hashes canonicalise unordered fields; identity returns of substitute_typevars are guarded against type variables.",
+    "C14": "Also decides: hand-written hashes canonicalise unordered fields; identity returns of substitute_typevars are guarded against type variables; by model extraction (R14.4): unite_values / flatten_values / annotate_value interpreted from their AST on 14 model values with the real classes' equality and hash, every pair and triple: idempotent, commutative, associative, never nests, Never identity, members = operands' members, equal alternatives merged.",
     "C15": "Also decides, by model extraction: (R15.7) solve() and remove_redundant_solutions() are interpreted from their AST over a five-element lattice of types (assignability = inclusion, unite_values = union) for every set of up to 4 (quick) / 5 (thorough) lower/upper/constraint bounds in every order: a returned type satisfies every bound and the accepted-vs-diagnosed verdict is order independent.",
     "C16": "By model extraction: (R16.h) _apply_changes_to_lines interpreted from its AST on every file of <= 6 lines x every deletion set x additions equals the documented splice, first change only; (R16.i) the interactive fixer's patch loop interpreted for every sequence of <= 3 changes gives the same file as the splices; (R16.j) iterating add-ignores on 2,280 small files with 0-2 diagnostic codes per line reaches a fixpoint with nothing reported, unchanged code lines, no unused inserted comment, and each inserted comment suppressing exactly one diagnostic. Also decides: (R16.f) whole-assignment deletions only for a single non-pattern target.",
     "C17": "By model extraction: (R17.6) the str.format template parser and _str_format_impl are interpreted from their AST for every template of <= 4 (quick) / 5 (thorough) characters over an 11-symbol alphabet plus 37 longer templates x 5 argument shapes; a diagnostic is shown whenever CPython's own str.format raises a template or missing-argument error on universal argument values and none (outside two listed stricter rules) when it formats. Also decides: (R17.4) truth table of argument consumption for `*` width / `*` precision / %%; (R17.5) a .format field name is an index exactly under isdecimal(), never by trial int().",
